@@ -1,3 +1,5 @@
+import Fpdec.Kernels.Wide
+import Fpdec.Kernels.Round
 import Fpdec.Lemmas.WideRound
 import Fpdec.Lemmas.IntTy
 import Fpdec.Props.C02_Sites
@@ -208,5 +210,18 @@ theorem checked_mul_int_spec (d : Dec) (i : Int) :
 example : mul Profile.dev .heven ⟨15, 1⟩ ⟨25, 2⟩ = .ok ⟨375, 3⟩ := by decide
 example : mul Profile.release .heven ⟨1000000000000000005, 18⟩ ⟨15, 1⟩ = .ok ⟨1500000000000000008, 18⟩ := by decide
 example : mul Profile.dev .heven Dec.MAX ⟨2, 0⟩ = .panic .overflow ∧ checkedMul Profile.dev ⟨1, 10⟩ ⟨3, 9⟩ = .ok none := by decide
+
+/-! ### translated kernels
+The Lean definitions `Gen.K.*` are regenerated from the Rust source on every run by `tools/fpkernels.py` (expression-level
+translation).  These theorems tie them to the hand-written model the property theorems above are about: a change of the Rust
+kernel that changes its translation breaks them. -/
+theorem kernel_i128_div_mod_floor (prof : Profile) (x y : Int) :
+    Gen.K.i128_div_mod_floor prof x y = i128DivModFloor prof x y := Kernels.i128_div_mod_floor_eq prof x y
+theorem kernel_round_quot (prof : Profile) (tm : Mode) (quot : Int) (rem divisor : Nat) (mode : Option Mode)
+    (hq : fitsI128 quot = true) :
+    Gen.K.round_quot prof tm quot rem divisor mode = .ok (roundQuot tm quot rem divisor mode) :=
+  Kernels.round_quot_eq prof tm quot rem divisor mode hq
+theorem kernel_u128_mul_u128 (prof : Profile) (x y : Nat) :
+    Gen.K.u128_mul_u128 prof x y = u128MulU128 prof x y := Kernels.u128_mul_u128_eq prof x y
 
 end Fpdec.Props.C02
